@@ -24,6 +24,7 @@ EXPLANATION = (
     "transport writes only behind the handshake-complete gate; raw writer/transport use only inside the frame helpers. R6: "
     "the fact must hold where the dispatcher looks up the subscribers of an incoming message (delivery gate for both receive "
     "loops). Decides the release/silence discipline in package code; leaks inside asyncio or the OS are not decided."
+    ' R7: package callers await the graceful close directly (or its closer sits in a finally). R8: every library call on the release path is one of a frozen list of non-raising release operations.'
 )
 ASSUMPTIONS = [
     "M1-M5 of DESIGN.md section 2",
